@@ -188,6 +188,22 @@ func corpusList() []corpusCase {
 		}
 		return finish(h.g, h.main)
 	})
+	// seeded C17-6: errors raised by a Go function called by a Go function (pcall(libfn), xpcall,
+	// gsub/sort with a failing host callback, host function calling a Go function, in coroutines)
+	add("go-function-called-by-go-function", func() *Generated {
+		h := newHand(6)
+		var body []*Stmt
+		for k := 1; k <= 8; k++ {
+			f := &Func{ID: h.g.fn()}
+			cx := &fctx{fn: f, parent: h.fx, callerNLoc: -1}
+			cx.push()
+			f.Body = append(h.g.faultAction(cx, "gogo", k, 1), &Stmt{K: "return", Exprs: []*Expr{num(1)}})
+			body = append(body, &Stmt{K: "call", Exprs: []*Expr{call(name("R"), num(k), call(name("pcall"), &Expr{K: "func", Fn: f}))}})
+		}
+		h.g.nScen = 8
+		h.main.Body = body
+		return finish(h.g, h.main)
+	})
 	return out
 }
 
